@@ -194,3 +194,6 @@ Definition shp_multipoint (l : list (list Q)) : res shp := bind (lists_pts l) (f
 Definition shp_multilinestring (ls : list (list (list Q))) : res shp := bind (map_res lists_pts ls) (fun x => Ok (SMultiLine x)).
 Definition shp_multipolygon (ps : list shp) : res shp :=
   bind (map_res (fun s => match s with SPoly sh hs => Ok (sh, hs) | _ => Err EType end) ps) (fun x => Ok (SMultiPoly x)).
+
+(* int(x) on a float: truncation toward zero *)
+Definition py_int (q : Q) : Z := if qltb q 0 then (- Qfloor (- q))%Z else Qfloor q.
